@@ -96,6 +96,8 @@ func initAllowed(path string) bool {
 	case "gitlab.com/gomidi/midi/v2", "gitlab.com/gomidi/midi/v2/smf", "gitlab.com/gomidi/midi/v2/gm",
 		"gitlab.com/gomidi/midi/v2/internal/utils", "gitlab.com/gomidi/midi/v2/internal/runningstatus", "gitlab.com/gomidi/midi/v2/drivers":
 		return true // plain table initialisers; interpreted so that gomidi's serialiser runs in the engine
+	case "unicode/utf8":
+		return true // the two decoding tables; the package is interpreted on concrete and symbolic bytes
 	}
 	return false
 }
@@ -644,6 +646,9 @@ func registerIntrinsics(e *Engine) {
 			}
 		}
 		return e.callModel("ReplacerReplace", args[1], mkStrSlice(pairs))
+	}
+	r["strconv.Quote"] = func(e *Engine, fr *frame, args []Value, site ssa.CallInstruction) Value {
+		return strconv.Quote(mustStr(e, args[0], "strconv.Quote"))
 	}
 	r["strings.Count"] = func(e *Engine, fr *frame, args []Value, site ssa.CallInstruction) Value {
 		return int64(strings.Count(mustStr(e, args[0], "Count"), mustStr(e, args[1], "Count")))
